@@ -9,6 +9,25 @@ def consts(start4, dt4, n, kv='{0,3,5}', ops='{"Step","Steps","Stream","Batch","
     return dict(Start4=str(start4), Dt4=str(dt4), N=str(n), K0='1', KVals=kv, Ops=ops)
 
 
+def flat_tab(v):
+    return [[-1000.0, float(v)], [1000.0, float(v)]]
+
+
+def build_points(start4, dt4, n):
+    """the same reference model with its parameter delivered as a graphical function: k = lookup(time, tab), tab flat at the
+    parameter's value.  A setting k := v is then the points setting tab := flat_tab(v)."""
+    common.use_repo()
+    from BPTK_Py import Model
+    from BPTK_Py import sd_functions as sd
+    m = Model(starttime=start4 / 4.0, stoptime=(start4 + n * dt4) / 4.0, dt=dt4 / 4.0, name="sessp")
+    m.points["tab"] = flat_tab(1.0)
+    k = m.converter("k"); k.equation = sd.lookup(sd.time(), "tab")
+    r = m.converter("r"); r.equation = k * 1.0
+    f = m.flow("f"); f.equation = r
+    s = m.stock("s"); s.initial_value = 0.0; s.equation = f
+    return m
+
+
 def build(start4, dt4, n, model_dt4=None):
     """model_dt4: the model is built with another (coarser) dt; the run's dt then arrives through begin_session settings"""
     common.use_repo()
@@ -82,15 +101,20 @@ def settings(v):
     return {"sm": {"base": {"constants": {"k": float(v)}}}} if v > 0 else {}
 
 
-def replay_api(hist, start4, dt4, n, eqs, dt_by_settings=False):
+def replay_api(hist, start4, dt4, n, eqs, dt_by_settings=False, points=False):
     BPTK_Py = common.use_repo()
     b = BPTK_Py.bptk()
+    settings = (lambda v: {"sm": {"base": {"points": {"tab": flat_tab(v)}}}} if v > 0 else {}) if points else globals()["settings"]
     try:
-        b.register_model(build(start4, dt4, n, model_dt4=2 * dt4 if dt_by_settings else None), scenario_manager="sm",
+        if points:
+            b.register_model(build_points(start4, dt4, n), scenario_manager="sm",
+                             scenario={"base": {"points": {"tab": flat_tab(1.0)}}, "zz": {"points": {"tab": flat_tab(K_SHADOW)}}})
+        else:
+          b.register_model(build(start4, dt4, n, model_dt4=2 * dt4 if dt_by_settings else None), scenario_manager="sm",
                          scenario={"base": {"constants": {"k": 1.0}}, "zz": {"constants": {"k": K_SHADOW}}})
         START[0] = start4 / 4.0
         if hist and hist[0]["op"] == "Batch":       # the memo of the scenario is full when the session begins
-            b.run_scenarios(scenario_managers=["sm"], scenarios=["base", "zz"], equations=["s", "f", "k", "u"], return_format="df")
+            b.run_scenarios(scenario_managers=["sm"], scenarios=["base", "zz"], equations=["s", "f", "k"] + ([] if points else ["u"]), return_format="df")
         def begin(first):
             rs = {"runspecs": {"dt": dt4 / 4.0}}
             b.begin_session(scenarios=["base", "zz"], scenario_managers=["sm"], equations=eqs,
@@ -278,8 +302,11 @@ def run(tier, replay_file=None):
             info = {"runspec": {"start": start4 / 4, "stop": (start4 + n * dt4) / 4, "dt": dt4 / 4}, "equations": eqs,
                     "calls": [{a: b for a, b in h.items() if a in ("op", "n", "set")} for h in hist]}
             for name, fn in (("api", lambda: replay_api(hist, start4, dt4, n, eqs, dt_by_settings=(j % 4 == 1))), ("rest", lambda: replay_rest(hist, start4, dt4, n, eqs, flat=False)),
+                             ("api-points", lambda: replay_api(hist, start4, dt4, n, eqs, points=True)),        # the parameter and its step settings as a graphical function
                              ("rest-flat", lambda: replay_rest(hist, start4, dt4, n, eqs, flat=True))):
                 if name != "api" and j % 3 != 0:
+                    continue
+                if name == "api-points" and "u" in eqs:
                     continue
                 try:
                     bad = fn()
